@@ -801,54 +801,39 @@ def _tasks_A(tier):
     return out
 
 
-def _spread(tasks, cost):
-    """Order tasks so that expensive ones start first (results are re-ordered by the
-    caller); purely a load-balancing measure."""
-    order = sorted(range(len(tasks)), key=lambda i: -cost(tasks[i]))
-    return order
+def dispatch(job):
+    """Single worker entry point: (kind, task) -> (kind, result)."""
+    kind, task = job
+    fn = {"A": _eval_graph, "I": _eval_independence, "S": _eval_strategies, "B": _eval_builder}[kind]
+    return _guard(fn, task)
 
 
-def _pmap_balanced(ctx, fn, tasks, cost, chunk):
-    order = _spread(tasks, cost)
-    res = ctx.pmap(fn, [tasks[i] for i in order], chunk=chunk)
-    out = [None] * len(tasks)
-    for i, r in zip(order, res):
-        out[i] = r
-    return out
+def _job_cost(job):
+    kind, t = job
+    if kind == "A":
+        n, real, dummy, modes, nvars = t[0], t[1], t[2], t[3], t[4]
+        ev = sum(len(_code_space(n, m, nvars, t[6])) * len(_params(m, t[7])) for m in modes)
+        return ev * (2 + sum(map(len, real)) + sum(map(len, dummy))) * n
+    if kind == "B":
+        return 40 * len(t[0])
+    return 500
 
 
 def run(ctx):
-    total = _new_agg()
-    bounds = []
-    graphs_shaped = graphs_general = 0
-    samples = []
-    # ---- Part A
+    # ------------------------------------------------------------ collect all jobs
+    jobs = []                      # (group, kind, task)
+    groups = []                    # labels, in report order
     for label, tasks in _tasks_A(ctx.tier):
-        aggs = _raise_harness_errors(_pmap_balanced(
-            ctx, eval_graph, tasks, lambda t: sum(map(len, t[1])) + sum(map(len, t[2])),
-            chunk=4 if len(tasks) > 256 else 1))
-        part = _new_agg()
-        for a in aggs:
-            _merge(part, a)
-        graphs_shaped += sum(1 for t in tasks if t[5])
-        graphs_general += sum(1 for t in tasks if not t[5])
-        bounds.append({"bound": label, "graphs": len(tasks), "evaluations": part["evaluations"],
-                       "states": part["states"], "complete_schedules_run": part["complete"],
-                       "schedules_represented": part["represented"]})
-        ctx.say(f"  [A] {label}: {len(tasks)} graphs, {part['evaluations']} evaluations, "
-                f"{part['states']} states, cpu {part['cpu']:.0f}s")
-        if part["sample"]:
-            samples.append(part["sample"])
-        _merge(total, part)
-    # ---- independence cross-check of the per-invocation exploration of CFG.analyze
+        groups.append(("A", label, len(tasks), sum(1 for t in tasks if t[5])))
+        jobs += [(len(groups) - 1, "A", t) for t in tasks]
     ind_tasks = [(n, real, dummy, 1) for n in (2, 3) for real, dummy in enum_graphs(n, 1, False)
                  if not builder_shape_defects(n, real, dummy)]
-    independence = sum(_raise_harness_errors(ctx.pmap(eval_independence, ind_tasks, chunk=2)))
-    strategies = sum(_raise_harness_errors(ctx.pmap(eval_strategies, ind_tasks, chunk=2)))
-    # ---- Part B
+    groups.append(("I", "independence", len(ind_tasks), 0))
+    jobs += [(len(groups) - 1, "I", t) for t in ind_tasks]
+    groups.append(("S", "strategies", len(ind_tasks), 0))
+    jobs += [(len(groups) - 1, "S", t) for t in ind_tasks]
     b_bounds = [(2, 8, "replay")] if ctx.quick else [(3, 8, "inplace"), (4, 6, "inplace")]
     built = n_cfgs = 0
-    on_builder: dict = {}
     shape_bad = []
     seen_sigs = set()
     for size, full_limit, strategy in b_bounds:
@@ -863,27 +848,63 @@ def run(ctx):
             if sig not in seen_sigs:
                 uniq.setdefault(sig, s_)
         seen_sigs.update(uniq)
-        if shape_bad:
-            raise HarnessBug(f"CFGBuilder output violates the assumed shape invariants: {shape_bad[:3]}")
         btasks = [(s_, full_limit, strategy)
                   for s_ in sorted(uniq.values(), key=lambda s_: (len(s_), s_))]
         n_cfgs += len(btasks)
-        partB = _new_agg()
-        for a in _raise_harness_errors(
-                _pmap_balanced(ctx, eval_builder, btasks, lambda t: len(t[0]), chunk=2)):
-            _merge(partB, a)
-        if partB["sample"]:
-            samples.append(partB["sample"])
-        on_builder.update(partB["viol"])
         label = (f"real CFGBuilder, bodies with <= {size} statements, every order for CFGs with "
                  f"<= {full_limit} blocks, every order with <= 2 deviations above "
                  f"(schedx strategy: {strategy})")
-        bounds.append({"bound": label, "new_distinct_cfgs": len(btasks),
-                       "evaluations": partB["evaluations"], "states": partB["states"],
-                       "deviation_bounded_evaluations": partB["bounded"]})
-        ctx.say(f"  [B] {label}: {len(btasks)} CFGs, {partB['evaluations']} evaluations, "
-                f"{partB['states']} states, cpu {partB['cpu']:.0f}s")
-        _merge(total, partB)
+        groups.append(("B", label, len(btasks), 0))
+        jobs += [(len(groups) - 1, "B", t) for t in btasks]
+    if shape_bad:
+        raise HarnessBug(f"CFGBuilder output violates the assumed shape invariants: {shape_bad[:3]}")
+
+    # ------------------------------------- one parallel map (expensive jobs first)
+    order = sorted(range(len(jobs)), key=lambda i: -_job_cost(jobs[i][1:]))
+    raw = ctx.pmap(dispatch, [jobs[i][1:] for i in order], chunk=2)
+    results = [None] * len(jobs)
+    for i, r in zip(order, raw):
+        results[i] = r
+    _raise_harness_errors(results)
+
+    # ------------------------------------------------------------------ aggregate
+    total = _new_agg()
+    per_group = [_new_agg() for _ in groups]
+    counts = [0] * len(groups)
+    for (g, kind, _), r in zip(jobs, results):      # job order = size order within a group
+        if kind in ("I", "S"):
+            counts[g] += r
+        else:
+            _merge(per_group[g], r)
+    bounds, samples, on_builder = [], [], {}
+    graphs_shaped = graphs_general = 0
+    independence = strategies = 0
+    for g, (kind, label, ntasks, nshaped) in enumerate(groups):
+        part = per_group[g]
+        if kind == "A":
+            graphs_shaped += nshaped
+            graphs_general += ntasks - nshaped
+            bounds.append({"bound": label, "graphs": ntasks, "evaluations": part["evaluations"],
+                           "states": part["states"], "complete_schedules_run": part["complete"],
+                           "schedules_represented": part["represented"]})
+            ctx.say(f"  [A] {label}: {ntasks} graphs, {part['evaluations']} evaluations, "
+                    f"{part['states']} states, cpu {part['cpu']:.0f}s")
+        elif kind == "B":
+            bounds.append({"bound": label, "new_distinct_cfgs": ntasks,
+                           "evaluations": part["evaluations"], "states": part["states"],
+                           "deviation_bounded_evaluations": part["bounded"]})
+            ctx.say(f"  [B] {label}: {ntasks} CFGs, {part['evaluations']} evaluations, "
+                    f"{part['states']} states, cpu {part['cpu']:.0f}s")
+            on_builder.update(part["viol"])
+        elif kind == "I":
+            independence = counts[g]
+            continue
+        else:
+            strategies = counts[g]
+            continue
+        if part["sample"]:
+            samples.append(part["sample"])
+        _merge(total, part)
 
     for key in sorted(total["viol"], key=lambda k: (total["viol"][k]["item"].get("n", 99), k)):
         v = total["viol"][key]
